@@ -103,6 +103,65 @@ def token_conservation_rule(ck, ix):
                              f"under `if {norm(iff.test)}:` a token is consumed with `{norm(st)}` and not yielded: an optional token (the sign of the nominal value) is content, dropping it changes the value")
     ck.floor("G-TYPESTATE", cond, 1, "conditionally consumed tokens in uncertainty_tokenizer")
 
+
+def lookahead_offsets_rule(ck, ix):
+    """In each branch of the uncertainty tokenizer the guard inspects tokens at look-ahead offsets 0..k (shifted by the
+    optional-minus count where there is one) and the trailing exponent is searched right behind the last inspected
+    token: offset k+1 with the same shift.  The number of tokens consumed equals the number inspected."""
+    tok = ix.func(PE, "uncertainty_tokenizer")
+
+    def offset(e):
+        """(has_shift, constant) of an offset expression, or None"""
+        if isinstance(e, ast.Constant) and isinstance(e.value, int):
+            return (False, e.value)
+        if isinstance(e, ast.Name):
+            return (True, 0)
+        if isinstance(e, ast.BinOp) and isinstance(e.op, ast.Add):
+            a, b = offset(e.left), offset(e.right)
+            if a and b:
+                return (a[0] or b[0], a[1] + b[1])
+        return None
+
+    loops = [l for l in tok.node.body if isinstance(l, ast.For)]
+    n = 0
+    for loop in loops:
+        chain = [st for st in loop.body if isinstance(st, ast.If)]
+        branches = []
+        for iff in chain:
+            cur = iff
+            while isinstance(cur, ast.If):
+                branches.append(cur)
+                cur = cur.orelse[0] if len(cur.orelse) == 1 and isinstance(cur.orelse[0], ast.If) else None
+        for br in branches:
+            la = []
+            for c in ast.walk(br.test):
+                if isinstance(c, ast.Call) and isinstance(c.func, ast.Attribute) and c.func.attr == "lookahead" and c.args:
+                    o = offset(c.args[0])
+                    if o is not None:
+                        la.append(o)
+            pe = [c for st in br.body for c in ast.walk(st) if isinstance(c, ast.Call) and call_name(c) == "_get_possible_e" and len(c.args) >= 2]
+            if not la or not pe:
+                continue
+            shifted = any(h for h, _ in la)
+            top = max(k for _, k in la)
+            for c in pe:
+                n += 1
+                o = offset(c.args[1])
+                ok = o is not None and o[1] == top + 1 and o[0] == shifted
+                ck.check(ok, "G-TWIN", f"uncertainty_tokenizer|exponent-searched-behind-last-inspected-token|L{br.lineno - tok.node.lineno}", tok.loc(c),
+                         f"exponent look-ahead at offset {'seen_minus + ' if shifted else ''}{top + 1}",
+                         f"`{norm(c)}`: the guard of this branch inspects look-ahead offsets up to {'seen_minus + ' if shifted else ''}{top}; the exponent must be searched at {'seen_minus + ' if shifted else ''}{top + 1} (with an optional leading minus the fixed offset points at the closing parenthesis and the exponent tokens leak into the expression)")
+            # body look-ahead calls (e.g. `.end` of the closing token) use the same shift
+            for st in br.body:
+                for c in ast.walk(st):
+                    if isinstance(c, ast.Call) and isinstance(c.func, ast.Attribute) and c.func.attr == "lookahead" and c.args:
+                        o = offset(c.args[0])
+                        if o is not None and shifted:
+                            n += 1
+                            ck.check(o[0] and o[1] <= top, "G-TWIN", f"uncertainty_tokenizer|body-lookahead-shifted|L{c.lineno - tok.node.lineno}", tok.loc(c), "body look-ahead uses the shifted offset",
+                                     f"`{norm(c)}` in a branch with an optional leading minus must be shifted by seen_minus and stay within the inspected tokens")
+    ck.floor("G-TWIN", n, 2, "exponent look-ahead sites in uncertainty_tokenizer")
+
 def run(ck, ix, tier):
     rs = Resolver(ix)
     pe = ix.module(PE)
@@ -234,6 +293,7 @@ def run(ck, ix, tier):
     ck.check("input_string.replace('±', '+/-')" in norm(tok.node), "G-TABLE", "uncertainty_tokenizer|plus-minus-sign", tok.loc(), "± is rewritten to +/-", "± is no longer rewritten to +/-")
 
     token_conservation_rule(ck, ix)
+    lookahead_offsets_rule(ck, ix)
 
     # ------------------------------------------------------------ (c) literal typing (shared with C02)
     fi = ix.func(U, "ParserHelper.eval_token")
